@@ -121,6 +121,8 @@ VALID = {
     "read-property-multiple": lambda inv: bytes([0x00, 0x05, inv, 0x0E, 0x0C, 0x00, 0x80, 0x00, 0x01, 0x1E, 0x09, 0x55,
                                                  0x09, 0x4D, 0x1F]),
     "who-is": lambda inv: bytes([0x10, 0x08, 0x09, 0x14, 0x19, 0x14]),
+    # SubscribeCOV: [0] process 1, [1] analogValue 1, [2] issue confirmed = true, [3] lifetime 60
+    "subscribe-cov": lambda inv: bytes([0x00, 0x05, inv, 0x05, 0x09, 0x01, 0x1C, 0x00, 0x80, 0x00, 0x01, 0x29, 0x01, 0x39, 0x3C]),
 }
 
 
@@ -186,8 +188,9 @@ def layer_noise(d, n, first):
     w, lan, dev, peer, av = make_world()
     noise = d.bytes(0, n, 'noise')
     if first is not None:
-        d.assume(len(noise) > 0)
-        d.assume(noise[0] == first)
+        d.assume(len(noise) >= len(first))
+        for i, o in enumerate(first):
+            d.assume(noise[i] == o)
     other = nl.RawPeer(PEER + 1, lan)
     noise_first = d.bool('noise_first')
     if noise_first:
@@ -204,9 +207,122 @@ def layer_noise(d, n, first):
     d.reach()
 
 
+# ------------------------------------------------------------------ a B/IP device fed the way UDPDirector does
+from bacpypes.comm import Server, bind                                               # noqa: E402
+from bacpypes.pdu import PDU, Address as _Address                                    # noqa: E402
+from bacpypes.bvllservice import BIPSimple, AnnexJCodec                              # noqa: E402
+from bacpypes.app import Application                                                 # noqa: E402
+from bacpypes.appservice import StateMachineAccessPoint, ApplicationServiceAccessPoint     # noqa: E402
+from bacpypes.netservice import NetworkServiceAccessPoint, NetworkServiceElement    # noqa: E402
+import bacpypes.core as core                                                         # noqa: E402
+
+
+class _QuietNSE(NetworkServiceElement):
+    _startup_disabled = True
+
+
+class FakeDirector(Server):
+    """stands in for UDPMultiplexer + UDPDirector (real sockets): a received datagram is handed up by ONE
+    core.deferred() call, exactly as UDPDirector.handle_read() does; what the stack sends is recorded"""
+
+    def __init__(self):
+        Server.__init__(self)
+        self.sent = []
+
+    def indication(self, pdu):
+        self.sent.append((pdu.pduDestination, bytes(pdu.pduData)))
+
+    def datagram(self, octets, source):
+        core.deferred(self.response, PDU(octets, source=source, destination=DEVICE_IP))
+
+
+DEVICE_IP = _Address("192.168.0.20")
+PEER_IP = _Address("192.168.0.31")
+OTHER_IP = _Address("192.168.0.32")
+
+
+class BIPDevice(Application, WhoIsIAmServices, ReadWritePropertyServices, ReadWritePropertyMultipleServices):
+    _startup_disabled = True
+
+    def __init__(self, dev):
+        Application.__init__(self, dev)
+        self.asap = ApplicationServiceAccessPoint()
+        self.smap = StateMachineAccessPoint(dev)
+        self.smap.deviceInfoCache = self.deviceInfoCache
+        self.nsap = NetworkServiceAccessPoint()
+        self.nse = _QuietNSE()
+        bind(self.nse, self.nsap)
+        bind(self, self.asap, self.smap, self.nsap)
+        self.bip, self.annexj, self.director = BIPSimple(), AnnexJCodec(), FakeDirector()
+        bind(self.bip, self.annexj, self.director)
+        self.nsap.bind(self.bip, address=DEVICE_IP)
+
+
+def bvll_unicast(npdu):
+    n = 4 + len(npdu)
+    return bytes([0x81, 0x0A, n // 256, n % 256]) + bytes(npdu)
+
+
+@meta(bounds="a B/IP device stack (application .. NSAP - BIPSimple - AnnexJCodec) fed the way UDPDirector.handle_read does: "
+             "each datagram by one core.deferred() call; a symbolic datagram of 0..n octets and a valid ReadProperty "
+             "(Original-Unicast-NPDU) from another station queued in the same deferred batch in symbolic order",
+      outside="datagrams longer than n, real sockets",
+      stubs=STUBS + ["UDPMultiplexer/UDPDirector (real sockets) -> FakeDirector: one core.deferred() per datagram"])
+def bip_noise(d, n, first=None):
+    w = World()
+    dev = BIPDevice(nl.make_device("dut", 20))
+    av = AnalogValueObject(objectIdentifier=("analogValue", 1), objectName="av1", presentValue=72.5,
+                           statusFlags=[0, 0, 0, 0], units="degreesFahrenheit")
+    dev.add_object(av)
+    noise = d.bytes(0, n, 'noise')
+    if first is not None:
+        d.assume(len(noise) >= len(first))
+        for i, o in enumerate(first):
+            d.assume(noise[i] == o)
+    valid = bvll_unicast(nl.frame(read_pv(0x42), True))
+    noise_first = d.bool('noise_first')
+    if noise_first:
+        dev.director.datagram(noise, PEER_IP)
+    dev.director.datagram(valid, OTHER_IP)
+    if not noise_first:
+        dev.director.datagram(noise, PEER_IP)
+    w.run()
+
+    def answers(to):
+        out = []
+        for (dst, data) in dev.director.sent:
+            if dst == to and len(data) > 4 and data[0] == 0x81 and data[1] == 0x0A:
+                try:
+                    np_, a = wire.parse_frame(data[4:])
+                except wire.Malformed:
+                    raise Violation("device-emitted-malformed-frame", data=data)
+                if a is not None:
+                    out.append(a)
+        return out
+    ro = answers(OTHER_IP)
+    if len(ro) != 1 or ro[0]["type"] != 3 or ro[0]["invoke"] != 0x42 or bytes(ro[0]["payload"]) != PV_ACK_BODY:
+        raise Violation("concurrent-valid-request-not-answered", noise=noise, noise_first=noise_first,
+                        got=[(x["type"], x["invoke"]) for x in ro], logged=[e[1] for e in d.errors_logged()])
+    if nl.residue(dev) or not w.idle():
+        raise Violation("leftover-transaction", after="bvll-noise", noise=noise)
+    # and a later valid request is answered as well
+    n0 = len(dev.director.sent)
+    dev.director.datagram(bvll_unicast(nl.frame(read_pv(0x43), True)), PEER_IP)
+    w.run()
+    rp = [a for a in answers(PEER_IP) if a["invoke"] == 0x43 and a["type"] == 3]
+    if len(rp) != 1:
+        raise Violation("subsequent-valid-request-not-answered", after="bvll-noise", noise=noise)
+    d.reach()
+
+
 def instances(tier):
     q = tier == "quick"
     out = []
+    out.append(Inst(bip_noise, dict(n=3 if q else 5), budget=80 if q else 600))
+    out.append(Inst(bip_noise, dict(n=7 if q else 9, first=[0x81, 0x0A]), budget=80 if q else 900, label="unicast-npdu"))
+    if not q:
+        out.append(Inst(bip_noise, dict(n=8, first=[0x81, 0x0B]), budget=900, label="broadcast-npdu"))
+        out.append(Inst(bip_noise, dict(n=12, first=[0x81, 0x04]), budget=900, label="forwarded-npdu"))
     svcs = sorted(A.confirmed_request_types)
     impl = [12, 15, 14, 16]     # ReadProperty, WriteProperty, ReadPropertyMultiple, WritePropertyMultiple
     if q:
@@ -219,18 +335,23 @@ def instances(tier):
     out.append(Inst(svc_garbage, dict(svc=None, n=1 if q else 2), budget=80 if q else 300, label="unregistered"))
     for service in VALID:
         for mutation in ("substitute", "delete", "insert"):
-            if q and service in ("write-property", "read-property-multiple") and mutation == "insert":
+            if q and service in ("write-property", "read-property-multiple", "subscribe-cov") and mutation == "insert":
                 continue
             flen = len(VALID[service](0)) + 2
-            parts = 1 if mutation == "delete" else max(3, flen // (4 if q else 3))
+            parts = 1 if mutation == "delete" else max(3, flen // (3 if q else 2))
             for i in range(parts):
                 out.append(Inst(frame_mutation, dict(service=service, mutation=mutation, part=(i, parts)),
                                 budget=80 if q else 900, path_timeout=60,
                                 label="%s,%s,part%d/%d" % (service, mutation, i + 1, parts)))
-    if q:
-        out.append(Inst(layer_noise, dict(n=2, first=None), budget=80))
-        out.append(Inst(layer_noise, dict(n=3, first=1), budget=80, label="n=3,version-1"))
-    else:
-        out.append(Inst(layer_noise, dict(n=3, first=None), budget=300))
-        out.append(Inst(layer_noise, dict(n=6, first=1), budget=900, label="n=6,version-1"))
+    # link-level noise: anything short; then version-1 frames whose control octet says "APDU follows" (the APDU
+    # area is garbage) and network-layer messages of known / unknown / proprietary types (the type octet is kept
+    # concrete: a class looked up by a symbolic key cannot be instantiated by the engine)
+    out.append(Inst(layer_noise, dict(n=2 if q else 3, first=None), budget=80 if q else 600))
+    out.append(Inst(layer_noise, dict(n=4 if q else 6, first=[1, 0x00]), budget=80 if q else 900, label="apdu-area,local"))
+    for t in ((0x00, 0x01, 0x13, 0x14) if q else (0x00, 0x01, 0x02, 0x03, 0x06, 0x08, 0x12, 0x13, 0x14, 0x7F, 0x80)):
+        out.append(Inst(layer_noise, dict(n=5 if q else 7, first=[1, 0x80, t]), budget=80 if q else 600,
+                        label="network-message-%02x" % t))
+    if not q:
+        out.append(Inst(layer_noise, dict(n=8, first=[1, 0x20]), budget=900, label="apdu-area,dnet"))
+        out.append(Inst(layer_noise, dict(n=8, first=[1, 0x08]), budget=900, label="apdu-area,snet"))
     return out
